@@ -25,7 +25,7 @@ def strip_lean_comments(s):
     s = re.sub(r"/-.*?-/", "", s, flags=re.S)
     return re.sub(r"--.*", "", s)
 
-def lean_obligations(pid):
+def lean_obligations(pid, tier="quick"):
     """build the library, list the property theorems of Properties/<pid>.lean with their axioms"""
     res = {"ok": True, "theorems": [], "errors": []}
     r = subprocess.run(["lake", "build", "Micm", "micm_model"], cwd=LEAN, capture_output=True, text=True)
@@ -54,12 +54,23 @@ def lean_obligations(pid):
     names = []
     for f in pfiles:
         src = strip_lean_comments(open(os.path.join(pdir, f)).read())
-        names += [n for n in re.findall(r"^\s*theorem\s+([A-Za-z0-9_.']+)", src, flags=re.M) if n.startswith(pid + "_")]
+        # fully qualified names: follow `namespace X` / `end X`
+        stack = []
+        for ln in src.splitlines():
+            m = re.match(r"^\s*namespace\s+([A-Za-z0-9_.']+)", ln)
+            if m:
+                stack.append(m.group(1)); continue
+            m = re.match(r"^\s*end\s+([A-Za-z0-9_.']+)\s*$", ln)
+            if m and stack and stack[-1] == m.group(1):
+                stack.pop(); continue
+            m = re.match(r"^\s*(?:private\s+|protected\s+)?theorem\s+([A-Za-z0-9_.']+)", ln)
+            if m and m.group(1).split(".")[-1].startswith(pid + "_"):
+                names.append(".".join(stack + [m.group(1)]))
     if not names:
         res["ok"] = False
         res["errors"].append("no theorems in Properties/" + pid + ".lean")
         return res
-    audit = "".join("import Micm.Properties." + f[:-5] + "\n" for f in pfiles) + "open Micm\n" + "".join(f"#print axioms {n}\n" for n in names)
+    audit = "".join("import Micm.Properties." + f[:-5] + "\n" for f in pfiles) + "".join(f"#print axioms {n}\n" for n in names)
     apath = os.path.join(LEAN, ".lake", f"audit_{pid}.lean")
     open(apath, "w").write(audit)
     r = subprocess.run(["lake", "env", "lean", apath], cwd=LEAN, capture_output=True, text=True)
@@ -70,7 +81,7 @@ def lean_obligations(pid):
         return res
     # parse "'name' depends on axioms: [a, b]" / "'name' does not depend on any axioms"
     for n in names:
-        m = re.search(r"'(?:Micm\.)?" + re.escape(n) + r"' (does not depend on any axioms|depends on axioms: \[([^\]]*)\])", out, flags=re.S)
+        m = re.search(r"'" + re.escape(n) + r"' (does not depend on any axioms|depends on axioms: \[([^\]]*)\])", out, flags=re.S)
         if not m:
             res["ok"] = False
             res["errors"].append("no axiom report for " + n)
@@ -81,6 +92,15 @@ def lean_obligations(pid):
         if bad:
             res["ok"] = False
             res["errors"].append(f"theorem {n} depends on disallowed axioms {bad}")
+    if tier == "thorough":
+        # independent re-check of the compiled property modules by the toolchain's leanchecker
+        for f in pfiles:
+            mod = "Micm.Properties." + f[:-5]
+            r = subprocess.run(["lake", "env", "leanchecker", mod], cwd=LEAN, capture_output=True, text=True)
+            res.setdefault("leanchecker", []).append({"module": mod, "ok": r.returncode == 0})
+            if r.returncode != 0:
+                res["ok"] = False
+                res["errors"].append(f"leanchecker rejects {mod}: " + (r.stdout + r.stderr)[-800:])
     return res
 
 def load_known():
@@ -128,7 +148,7 @@ def main():
     elif a.no_proofs:
         obl = {"ok": True, "theorems": [], "errors": []}
     else:
-        obl = lean_obligations(pid)
+        obl = lean_obligations(pid, tier)
     broken_obligation = not obl["ok"]
 
     # 3. harness + cases
@@ -267,6 +287,7 @@ def main():
                              "tools/gen_lean.py translator", "correspondence harness (differential, bit-exact on double)",
                              "model files lean/Micm/Model/*.lean stand for the C++ source"],
             "theorems": thms,
+            "leanchecker": obl.get("leanchecker", []),
             "partial": [t["name"] for t in thms if t["partial"]],
             "evaluations": len(cases) + (special["evaluations"] if special else 0),
             "distinct_nontrivial": len(nontrivial) + (special["nontrivial"] if special else 0),
